@@ -33,6 +33,7 @@ class Arr:
 # every out-of-range access any domain of this process has met (safety net: report.Check.finish turns an entry that no
 # rule reported into a violation, so a check can never pass over an access outside an array it modelled)
 GLOBAL_OOB = []
+GLOBAL_UNINIT = []
 
 
 class Elem(Cell):
